@@ -339,7 +339,11 @@ def _handle_fn_body(body: list[ast.stmt], ctx: Context) -> sympy.Expr | None:
 
         if isinstance(node, ast.If):
             condition = _handle_expr(node.test, ctx)
-            if_expr = _handle_fn_body(node.body, ctx)
+            # Each branch works on its own copy of the symbol table: what it
+            # assigns must not be visible on the paths that do not take it
+            if_expr = _handle_fn_body(
+                node.body, ctx.updated(symbols=dict(ctx.symbols))
+            )
             pieces.append((if_expr, condition))
 
             # If there's an else clause
@@ -350,7 +354,9 @@ def _handle_fn_body(body: list[ast.stmt], ctx: Context) -> sympy.Expr | None:
                     remaining_body.insert(0, node.orelse[0])
                 else:
                     # It's a regular else
-                    else_expr = _handle_fn_body(node.orelse, ctx)  # FIXME: copy here
+                    else_expr = _handle_fn_body(
+                        node.orelse, ctx.updated(symbols=dict(ctx.symbols))
+                    )
                     pieces.append((else_expr, True))
                     break  # We're done with this chain
 
@@ -358,8 +364,9 @@ def _handle_fn_body(body: list[ast.stmt], ctx: Context) -> sympy.Expr | None:
                 isinstance(n, ast.Return) for n in body[body.index(node) + 1 :]
             ):
                 else_expr = _handle_fn_body(
-                    body[body.index(node) + 1 :], ctx
-                )  # FIXME: copy here
+                    body[body.index(node) + 1 :],
+                    ctx.updated(symbols=dict(ctx.symbols)),
+                )
                 pieces.append((else_expr, True))
 
         elif isinstance(node, ast.Return):
